@@ -127,3 +127,130 @@ Proof.
   { intros t id. unfold rp_virt. destruct (256 <=? id); [|reflexivity]. destruct (Z.to_nat (id - 256)); reflexivity. }
   destruct (m_base m) as [| |bt bi], (m_index m) as [[it ii]|]; cbn [base_toks_rp index_toks_rp]; rewrite ?E; reflexivity.
 Qed.
+
+(* ------------------------------------------------------------------ whole lines printed through a Compiler: every register (operands,
+   memory base/index, {k} mask, rep register) goes through the virtual-register printer; a memory operand that is the HOME of a
+   spilled virtual register prints "&" before the base and drops kRegCasts for it *)
+From Verif Require Import Fmt.X86InstModel.
+
+Definition fmt_mem_toks_home (rp rp_nocast : x86rt -> Z -> text) (home : bool) (f : fflags) (m : x86mem) : list tok :=
+  let hb := has_base (m_base m) in
+  let hi := match m_index m with Some _ => true | None => false end in
+  size_toks (m_size m) ++ seg_toks (m_seg m) ++ [P "["] ++ addr_toks (m_addr m)
+  ++ (match m_base m with
+      | MBNone => []
+      | MBLabel id => [TId (label_text id)]
+      | MBReg t i => if home then [P "&"; TId (rp_nocast t i)] else [TId (rp t i)]
+      end
+      ++ index_toks_rp rp hb (m_index m) (m_shift m) ++ off_toks f (hb || hi) (m_off m)) ++ [P "]"].
+
+Definition vop_toks (rp rp_nocast : x86rt -> Z -> text) (f : fflags) (oh : x86op * bool) : list tok :=
+  match fst oh with
+  | OReg t i => [TId (rp t i)]
+  | OMem m => fmt_mem_toks_home rp rp_nocast (snd oh) f m
+  | o => fmt_op_toks f o
+  end.
+
+Definition mask_toks_rp (rp : x86rt -> Z -> text) (o : x86opts) (extra : option (x86rt * Z)) : list tok :=
+  match extra with
+  | Some (KReg, i) => [sp] ++ brace [TId (rp KReg i)] ++ (if o_zmask o then brace [kw "z"] else [])
+  | _ => if o_zmask o then [sp] ++ brace [kw "z"] else []
+  end.
+
+Fixpoint vops_toks (rp rp_nocast : x86rt -> Z -> text) (f : fflags) (o : x86opts) (extra : option (x86rt * Z)) (first : bool)
+  (ops : list (x86op * bool)) : list tok :=
+  match ops with
+  | [] => []
+  | (ONone, _) :: _ => []
+  | oh :: r => (if first then [sp] else [P ","; sp]) ++ vop_toks rp rp_nocast f oh
+               ++ (if first then mask_toks_rp rp o extra else []) ++ bcst_toks (fst oh)
+               ++ vops_toks rp rp_nocast f o extra false r
+  end.
+
+Definition fmt_inst_toks_rp (rp rp_nocast : x86rt -> Z -> text) (f : fflags) (i : x86inst) (homes : list bool) : list tok :=
+  let o := i_opts i in
+  items specsA (flagsA o)
+  ++ (if o_rep o || o_repne o then match i_extra i with Some (t, k) => brace [TId (rp t k)] ++ [sp] | None => [] end else [])
+  ++ items specsR [o_rex o] ++ [TId (i_mnem i)]
+  ++ vops_toks rp rp_nocast f o (i_extra i) true (combine (i_ops i) (homes ++ repeat false (length (i_ops i)))) ++ er_toks o.
+
+Definition fmt_inst_virt (env : venv) (regtype regcasts : bool) (f : fflags) (i : x86inst) (homes : list bool) : text :=
+  render (fmt_inst_toks_rp (rp_virt env regtype regcasts) (rp_virt env regtype false) f i homes).
+
+Lemma rp_virt_nil regtype regcasts t id : rp_virt [] regtype regcasts t id = fmt_reg t id.
+Proof. unfold rp_virt. destruct (256 <=? id); [|reflexivity]. destruct (Z.to_nat (id - 256)); reflexivity. Qed.
+
+Lemma vops_toks_phys f o extra : forall ops first,
+  vops_toks fmt_reg fmt_reg f o extra first (combine ops (repeat false (length ops))) = ops_toks f o extra first ops.
+Proof.
+  induction ops as [|op r IH]; intros first; [reflexivity|].
+  cbn [length repeat combine vops_toks ops_toks]. destruct op as [|t i|m|v|id]; try reflexivity; cbn [fst snd vop_toks];
+    rewrite IH; try reflexivity.
+  all: try (destruct extra as [[[] ?]|]; reflexivity).
+  all: try (assert (E : fmt_mem_toks_home fmt_reg fmt_reg false f m = fmt_mem_toks f m) by (unfold fmt_mem_toks_home, fmt_mem_toks, mem_body_toks; destruct (m_base m), (m_index m) as [[? ?]|]; reflexivity); rewrite E; destruct extra as [[[] ?]|]; reflexivity).
+Qed.
+
+Lemma vops_toks_nil regtype regcasts f o extra : forall ops b,
+  vops_toks (rp_virt [] regtype regcasts) (rp_virt [] regtype false) f o extra b ops = vops_toks fmt_reg fmt_reg f o extra b ops.
+Proof.
+  assert (R : forall t k, rp_virt [] regtype regcasts t k = fmt_reg t k) by (intros; apply rp_virt_nil).
+  assert (R' : forall t k, rp_virt [] regtype false t k = fmt_reg t k) by (intros; apply rp_virt_nil).
+  induction ops as [|[op h] r IH]; intros b; [reflexivity|]. cbn [vops_toks].
+  destruct op as [|t k|m|v|id]; try reflexivity; cbn [fst snd vop_toks]; rewrite IH; rewrite ?R.
+  all: try (unfold mask_toks_rp; destruct extra as [[[] ?]|]; rewrite ?R; reflexivity).
+  assert (M : fmt_mem_toks_home (rp_virt [] regtype regcasts) (rp_virt [] regtype false) h f m = fmt_mem_toks_home fmt_reg fmt_reg h f m).
+  { unfold fmt_mem_toks_home, index_toks_rp. destruct (m_base m), (m_index m) as [[? ?]|], h; rewrite ?R, ?R'; reflexivity. }
+  rewrite M. unfold mask_toks_rp. destruct extra as [[[] ?]|]; rewrite ?R; reflexivity.
+Qed.
+
+(* without virtual registers and home operands the Compiler line is the plain line (all line theorems apply) *)
+Lemma fmt_inst_virt_nil regtype regcasts f i : fmt_inst_virt [] regtype regcasts f i [] = fmt_inst f i.
+Proof.
+  unfold fmt_inst_virt, fmt_inst. f_equal. unfold fmt_inst_toks_rp, fmt_inst_toks, prefix_toks, regitem. cbn [app].
+  rewrite vops_toks_nil, vops_toks_phys.
+  destruct (o_rep (i_opts i) || o_repne (i_opts i)); [destruct (i_extra i) as [[t k]|]|]; cbn [fmt_op_toks]; rewrite ?rp_virt_nil;
+    repeat rewrite <- app_assoc; reflexivity.
+Qed.
+
+(* FuncRetNode of a Compiler: "[FuncRet]" and up to two operands (the separator depends on the slot, not on what was printed) *)
+Definition fmt_func_ret (env : venv) (regtype regcasts : bool) (f : fflags) (o0 o1 : x86op) : text :=
+  let rp := rp_virt env regtype regcasts in
+  let rpn := rp_virt env regtype false in
+  s "[FuncRet]"
+  ++ match o0 with ONone => [] | _ => render (sp :: vop_toks rp rpn f (o0, false)) end
+  ++ match o1 with ONone => [] | _ => render (P "," :: sp :: vop_toks rp rpn f (o1, false)) end.
+
+(* virtual registers of an a64::Compiler: the name (or %index) replaces the register name; element suffix and index stay *)
+From Verif Require Import Fmt.A64FmtModel.
+Definition a64_fmt_virt (name : option text) (index : Z) (t : a64rt) (et : Z) (ei : option Z) : text :=
+  vreg_name name index ++ a64_elem_suffix t et
+  ++ match ei with Some i => render [P "["; TId (dec i); P "]"] | None => [] end.
+
+(* ------------------------------------------------------------------ FuncNode of a Compiler: "L1: int32@eax Func(int32@edi a0, int64@[8] <none>)"
+   a value is its type name and, when assigned, "@" + register and/or "[stack offset]" *)
+Inductive fassign := FAReg (t : x86rt) (id : Z) | FAStack (off : Z) | FANone.
+
+Definition fmt_fvalue (ty : text) (a : fassign) : text :=
+  ty ++ match a with
+        | FAReg t id => at_c :: fmt_reg t id
+        | FAStack off => at_c :: "["%char :: fmt_int off ++ ["]"%char]
+        | FANone => []
+        end.
+
+Fixpoint join_comma (l : list text) : text :=
+  match l with [] => [] | [x] => x | x :: r => x ++ s ", " ++ join_comma r end.
+
+Definition fmt_func_node (lbl : Z) (rets : list (text * fassign)) (args : list (text * fassign * option text)) : text :=
+  label_text lbl ++ s ": "
+  ++ match rets with
+     | [] => s "void"
+     | [(ty, a)] => fmt_fvalue ty a
+     | _ => "["%char :: join_comma (map (fun p => fmt_fvalue (fst p) (snd p)) rets) ++ ["]"%char]
+     end
+  ++ s " Func("
+  ++ match args with
+     | [] => s "void"
+     | _ => join_comma (map (fun p => fmt_fvalue (fst (fst p)) (snd (fst p)) ++ " "%char ::
+                                      match snd p with Some n => n | None => s "<none>" end) args)
+     end
+  ++ s ")".
